@@ -15,8 +15,6 @@ weight accumulator and after every ``connection.update()`` with the weight itsel
 
 from __future__ import annotations
 
-import os
-
 import numpy as np
 import torch
 from hypothesis import strategies as st
@@ -517,20 +515,11 @@ _SIGNS = [(1, -1), (-1, 1), (1, 1), (-1, -1)]
 
 
 def _exh_cases(tier):
-    seed = int(os.environ.get("VERIF_SEED", "1") or 1)
-    tfull = 3 if tier == "quick" else 6
+    tmax = {"STDP": 4, "TripletSTDP": 3, "MSTDPET": 3} if tier == "quick" else \
+           {"STDP": 6, "TripletSTDP": 5, "MSTDPET": 5}
     for trainer in ("STDP", "TripletSTDP", "MSTDPET"):
-        tf_ = tfull if trainer == "STDP" else (3 if tier == "quick" else 4)
-        for T in range(1, tf_ + 2):
-            if T == tf_ + 1 and tier != "quick":
-                break
+        for T in range(1, tmax[trainer] + 1):
             for code in range(4 ** T):
-                if T == tf_ + 1:
-                    # quick: a seed-dependent half of the next length
-                    if ((code * 2654435761 + seed * 40503) >> 7) % 2:
-                        continue
-                    if trainer != "STDP":
-                        continue
                 for mode in ("cumulative", "nearest"):
                     for si, _ in enumerate(_SIGNS):
                         yield {"trainer": trainer, "T": T, "code": code, "mode": mode, "signs": si}
@@ -577,7 +566,7 @@ LEGS = [
         name="pairs",
         run=run_pairs,
         strategy=lambda tier: pairs_case(tier),
-        quick=260, thorough=2600, quick_shards=8, thorough_shards=16, nt_floor=0.3,
+        quick=360, thorough=2600, quick_shards=8, thorough_shards=16, nt_floor=0.3,
         rule="history with >= 1 causal, >= 1 anti-causal and >= 1 simultaneous pre/post pair whose "
              "triggering spike falls on a step where the trainer is called, a non-zero expected update, "
              "in nearest mode >= 2 pre spikes up to one post spike, with delays (max > 0) >= 2 distinct "
@@ -589,9 +578,8 @@ LEGS = [
         enumerate=_exh_cases,
         quick_shards=6, thorough_shards=16, nt_floor=0.4,
         rule="1x1 dense cell, every pre/post history (4^T) x {cumulative, nearest} x 4 sign modes: STDP "
-             "T<=3 complete + a seed-dependent half of T=4 (quick) / T<=6 complete (thorough); TripletSTDP "
-             "and MSTDPET (alternating reward) T<=3 (quick) / T<=4 (thorough); non-trivial = at least one "
-             "pre/post pair exists",
+             "T<=4 (quick) / T<=6 (thorough); TripletSTDP and MSTDPET (reward cycling through +1, -0.5, +2) "
+             "T<=3 (quick) / T<=5 (thorough); non-trivial = at least one pre/post pair exists",
         exhaustive_note="finite history domain enumerated completely up to the stated T",
     ),
 ]
